@@ -304,6 +304,7 @@ def r04g(ck, fb):
             t = Taint(b, place_src=field_place_src('index'))
             ck.require(t.op_tainted(sv[0][3]['ops'][0]), 'R04g', 'async_apply:index', s.where(), 'saved last_applied is not request.index')
     h = ck.body('<rnacos::raft::filestore::raftapply::StateApplyManager as actix::Handler<rnacos::raft::filestore::raftapply::StateApplyRequest>>::handle', 'R04g')
+    h = util.body_with_call(fb, h, r'StateApplyManager::apply_request_to_state_machine$')    # the batch loop may live in a helper
     if h:
         ap = h.calls(r'StateApplyManager::apply_request_to_state_machine$')
         sv = util.sends(h, r'RaftIndexRequest$', 'SaveLastAppliedLog')
